@@ -18,8 +18,8 @@ use std::rc::Rc;
 use std::time::{Duration, Instant};
 
 const TIMEOUTS: [Option<u64>; 5] = [Some(0), Some(5), Some(40), Some(200), None];
-const TIMERS: [&str; 7] = ["none", "earlier", "equal", "later", "expired", "one-hour", "unrepresentable"];
-const POPS: [&str; 9] = ["empty", "ping-live-handle", "ping-all-handles-gone", "channel-all-senders-gone", "empty-executor", "generic-level-not-ready", "generic-empty-interest-ready", "fired-oneshot-still-ready", "disabled-sources-with-pending-readiness"];
+const TIMERS: [&str; 8] = ["none", "earlier", "equal", "later", "expired", "one-hour", "unrepresentable", "earlier-rearmed-from-unrepresentable"];
+const POPS: [&str; 10] = ["self-removed-source-whose-slot-was-reused", "empty", "ping-live-handle", "ping-all-handles-gone", "channel-all-senders-gone", "empty-executor", "generic-level-not-ready", "generic-empty-interest-ready", "fired-oneshot-still-ready", "disabled-sources-with-pending-readiness"];
 
 struct Cell_ {
     timeout: Option<u64>,
@@ -88,6 +88,27 @@ fn measure(c: &Cell_) -> Measured {
             h.insert_source(Generic::new(r, Interest::READ, Mode::OneShot), |_, _, _| Ok(PostAction::Continue)).unwrap();
             keep_fds.push(w);
         }
+        "self-removed-source-whose-slot-was-reused" => {
+            // a readable level-triggered source removes itself in its callback and inserts another source, which
+            // takes the vacated slot; the caller keeps the Dispatcher (and with it the fd) alive
+            let (r, w) = sysx::pipe_pair();
+            sysx::write_fd(std::os::fd::AsRawFd::as_raw_fd(&w), b"x");
+            let h2 = h.clone();
+            let tok: Rc<Cell<Option<calloop::RegistrationToken>>> = Rc::new(Cell::new(None));
+            let tok2 = tok.clone();
+            let disp = calloop::Dispatcher::new(Generic::new(r, Interest::READ, Mode::Level), move |_, _, _: &mut u32| {
+                if let Some(t) = tok2.take() {
+                    h2.remove(t);
+                    let (p, s) = make_ping().unwrap();
+                    h2.insert_source(s, |_, _, n| *n += 1).unwrap();
+                    std::mem::forget(p);
+                }
+                Ok(PostAction::Continue)
+            });
+            tok.set(Some(h.register_dispatcher(disp.clone()).unwrap()));
+            keep.push(Box::new(disp));
+            keep_fds.push(w);
+        }
         "disabled-sources-with-pending-readiness" => {
             let (p, s) = make_ping().unwrap();
             let t = h.insert_source(s, |_, _, n| *n += 1).unwrap();
@@ -130,9 +151,21 @@ fn measure(c: &Cell_) -> Measured {
         "later" => Some(now + Duration::from_millis(base * 2 + 20)),
         "expired" => Some(now.checked_sub(Duration::from_millis(10)).unwrap_or(now)),
         "one-hour" => Some(now + Duration::from_secs(3600)),
+        "earlier-rearmed-from-unrepresentable" => Some(now + Duration::from_millis(base) / 2),
         _ => None,
     };
-    if c.timer == "unrepresentable" {
+    if c.timer == "earlier-rearmed-from-unrepresentable" {
+        // inserted with a deadline that cannot be represented, then given a real one: set_deadline + update
+        let f3 = fired.clone();
+        let d = calloop::Dispatcher::new(Timer::from_duration(Duration::MAX), move |_, _, _: &mut u32| {
+            f3.set(true);
+            TimeoutAction::Drop
+        });
+        let t = h.register_dispatcher(d.clone()).unwrap();
+        d.as_source_mut().set_deadline(deadline.unwrap());
+        h.update(&t).unwrap();
+        keep.push(Box::new(d));
+    } else if c.timer == "unrepresentable" {
         h.insert_source(Timer::from_duration(Duration::MAX), |_, _, _| TimeoutAction::Drop).unwrap();
     } else if let Some(d) = deadline {
         h.insert_source(Timer::from_deadline(d), move |_, _, _| {
@@ -142,7 +175,7 @@ fn measure(c: &Cell_) -> Measured {
         .unwrap();
     }
     // with None and nothing armed only an event ends the wait: a helper pings after 30 ms
-    let needs_helper = to.is_none() && !matches!(c.timer, "earlier" | "equal" | "later" | "expired");
+    let needs_helper = to.is_none() && !matches!(c.timer, "earlier" | "equal" | "later" | "expired" | "earlier-rearmed-from-unrepresentable");
     let mut helper = None;
     if needs_helper {
         let (p, s) = make_ping().unwrap();
